@@ -441,6 +441,8 @@ func (r *Run) confirm() (int, []string) {
 	return confirmed, unconfirmed
 }
 
+var finishMu sync.Mutex // locked by the first Finish and never released
+
 // Fatalf prints an infrastructure error and exits 2.
 func Fatalf(format string, a ...interface{}) {
 	fmt.Printf("ERROR: "+format+"\n", a...)
@@ -449,6 +451,9 @@ func Fatalf(format string, a ...interface{}) {
 
 // Finish writes the evidence file and exits with the verdict.
 func (r *Run) Finish() {
+	// one caller only (the check itself, or a guard that ends the run early):
+	// a second caller waits here until the first one has exited the process
+	finishMu.Lock()
 	confirmed, unconfirmed := r.confirm()
 	r.mu.Lock()
 	r.violations = confirmed
